@@ -145,6 +145,9 @@ POOL.append({"id": 12, "shape": gen.SHAPES["x"], "types": {"x": "DepHooked"}, "p
 VALUES["K0cls"] = K0
 VALUES["K1cls"] = K1
 POOL.append({"id": 13, "shape": gen.SHAPES["x"], "types": {"x": "O"}, "prio": 9, "body": "cnstar"})
+# a second predicate at the priority of IsK: both accept K0 / K1, so the rank below a unique winner is a tie
+ANN["NamedK0"] = Named["K0"]
+POOL.append({"id": 14, "shape": gen.SHAPES["x"], "types": {"x": "NamedK0"}, "prio": 0})
 VALUES["[k0,k1]"] = [VALUES["k0"], VALUES["k1"]]
 VALUES["[[k1],1]"] = [[VALUES["k1"]], 1]
 SIGMA_NAMES = ["k0", "k1", "z", "1", "s", "[k0,k1]", "[[k1],1]"]
@@ -265,6 +268,10 @@ def programs(tier):
     for a, b in itertools.combinations(extra, 2):
         yield (a, b), depth
         yield (4, a, b), depth
+    # a unique winner above a tied rank (IsK and Named["K0"] at one priority)
+    for top in (3, 6, 7, 10):
+        yield (0, top, 14), depth
+    yield (0, 3, 6, 14), depth
 
 
 def sigma_for(combo):
